@@ -96,8 +96,12 @@ func (g histGen) gen(n int) hist {
 			}
 		case k < 94 && g.saves != "":
 			o = sop{K: string(g.saves[r.Intn(len(g.saves))])}
-		case k < 100 && g.attrs:
-			switch r.Intn(9) {
+		case g.attrs && k < 100 && (k >= 94 || r.Intn(3) == 0):
+			switch r.Intn(11) {
+			case 9:
+				o = sop{K: "CO", I: int64(r.Intn(4))}
+			case 10:
+				o = sop{K: "RO", I: int64(r.Intn(4))}
 			case 0:
 				o = sop{K: "H", F: []float64{15, 20.5, 0, 409, 33.75}[r.Intn(5)]}
 			case 1:
